@@ -31,7 +31,7 @@ def gen_program(rng, depth, budget, prop):
     # a thread created with parent_thread=Null: registered in ALL only (as the pipe threads of a Process are); nobody but
     # MainThread.stop()'s final sweep of the registry stops and joins it
     if rng.random() < (0.3 if prop == "C11" else 0.12):
-        leaf = ([["wait_stop"]] if rng.random() < 0.7 else []) + [["ret", rng.randrange(len(VALUES))]]
+        leaf = ([["wait_stop"]] if rng.random() < 0.7 else []) + [["ret", rng.randrange(len(VALUES))] if rng.random() < 0.7 else ["raise"]]
         acts.insert(rng.randint(0, len(acts)), ["spawn_orphan", leaf])
     # afterwards: join / stop one of the earlier children while its siblings are still registered (a join that unregisters a
     # child can then race with a stop() walking this thread's children)
@@ -305,12 +305,30 @@ def _has_sleep(prog):
     return any(a[0] == "sleep" or (a[0] in ("spawn", "spawn_orphan") and _has_sleep(a[1])) for a in prog)
 
 
+def _sleep_span(prog):
+    """an upper bound of the virtual time the sleeps of a program (and of the programs it starts) can take"""
+    own = sum(a[1] for a in prog if a[0] == "sleep")
+    kids = [_sleep_span(a[1]) for a in prog if a[0] in ("spawn", "spawn_orphan")]
+    return own + (max(kids) if kids else 0.0)
+
+
+def gen_slow_child(rng):
+    """C10: a child that takes more than ten minutes to end (and does not look at please_stop): its parent's target returns at once,
+    `stopped` of the parent has to wait all that time"""
+    secs = rng.choice([620.0, 650.0, 1300.0])
+    child = [["sleep", secs], ["ret", rng.randrange(len(VALUES))]]
+    prog = [["spawn", child], ["ret", rng.randrange(len(VALUES))] if rng.random() < 0.7 else ["raise"]]
+    return {"main": [["spawn", prog], ["join", 0], ["main_stop"]]}
+
+
 def run_scenario(sc, chooser=None, seed=0, max_steps=30000):
     ds.install()
     ds.reset_globals()
     from mo_threads import threads, till, signals
     long_run = _has_sleep(sc["main"])
-    sched = ds.Sched(chooser=chooser, seed=seed, max_steps=(120000 if long_run else max_steps), horizon=(140.0 if long_run else 3.0))
+    span = _sleep_span(sc["main"])
+    sched = ds.Sched(chooser=chooser, seed=seed, max_steps=(int(120000 + 400 * span) if long_run else max_steps),
+                     horizon=(max(140.0, span + 80.0) if long_run else 3.0))
     st = {"viol": [], "nodes": {}, "next": 1, "kids": {}, "outcome": {}, "join_results": [], "order": [], "targets_done": 0,
           "tills": 0, "seen": 0}
     RealSignal = signals.Signal
